@@ -28,6 +28,8 @@ POOLS = {
 
 
 class System:
+    rebuild = True
+
     def __init__(self, alpha):
         self.alpha = alpha
 
